@@ -155,11 +155,13 @@ fn convert_http2_headers_to_http_format(
         http::response_skip_value_headers()
     };
 
+    // HTTP/2 header names are lower-case on the wire; the p0f lists are capitalised
+    let listed = |list: &[&str], name: &str| list.iter().any(|n| n.eq_ignore_ascii_case(name));
+
     for header in headers {
-        let header_name_lower = header.name.to_lowercase();
-        if optional_list.contains(&header_name_lower.as_str()) {
+        if listed(&optional_list, &header.name) {
             headers_in_order.push(http::Header::new(&header.name).optional());
-        } else if skip_value_list.contains(&header_name_lower.as_str()) {
+        } else if listed(&skip_value_list, &header.name) {
             headers_in_order.push(http::Header::new(&header.name));
         } else {
             headers_in_order
